@@ -44,9 +44,13 @@ type translator struct {
 	tablesOK    map[*ssa.Global]string
 	globalsOK   map[*ssa.Global]string
 	allFuncs    []*ssa.Function
+	gen4        map[string]bool // targets of ssa2lean4 (namespace Low.Gen.Ssa4)
+	implMemo    map[string]types.Type
+	worldMemo   map[*ssa.Function]int
+	errVarMemo  map[*ssa.Global]string
 }
 
-func newTranslator(prog *ssa.Program, pkgs map[string]*ssa.Package, targets []string, legacy []string, gen2 []string, gen3 []string) *translator {
+func newTranslator(prog *ssa.Program, pkgs map[string]*ssa.Package, targets []string, legacy []string, gen2 []string, gen3 []string, gen4 []string) *translator {
 	tr := &translator{
 		prog: prog, pkgs: pkgs,
 		byName: map[string]*ssa.Function{}, byFunc: map[*ssa.Function]string{},
@@ -58,6 +62,10 @@ func newTranslator(prog *ssa.Program, pkgs map[string]*ssa.Package, targets []st
 	}
 	for _, t := range gen3 {
 		tr.gen3[t] = true
+	}
+	tr.gen4 = map[string]bool{}
+	for _, t := range gen4 {
+		tr.gen4[t] = true
 	}
 	for _, t := range legacy {
 		tr.legacy[t] = true
@@ -86,8 +94,10 @@ func (tr *translator) genOf(target string) int {
 		return 2
 	case tr.gen3[target]:
 		return 3
+	case tr.gen4[target]:
+		return 4
 	}
-	return 4
+	return 5
 }
 
 func (tr *translator) resolve(target string) (*ssa.Function, string) {
@@ -177,6 +187,9 @@ func (tr *translator) canPanic(f *ssa.Function) bool {
 					res = true
 				}
 			case *ssa.Call:
+				if v.Call.IsInvoke() && moduleIface(v.Call.Value.Type()) {
+					res = true // a call through a nil interface panics (generation 5)
+				}
 				if callee := v.Call.StaticCallee(); callee != nil {
 					if callee == f {
 						fail("recursive call of %s", f.Name())
@@ -221,6 +234,9 @@ func (tr *translator) needsFuel(f *ssa.Function) bool {
 					if _, ok := tr.byFunc[callee]; ok && tr.needsFuel(callee) {
 						res = true
 					}
+				}
+				if fn := tr.invokeTarget(&v.Call); fn != nil && fn != f && tr.needsFuel(fn) {
+					res = true
 				}
 			}
 			if mc, ok := in.(*ssa.MakeClosure); ok && !onlyFeedsNoop(mc) {
@@ -478,6 +494,11 @@ func isString(t types.Type) bool {
 var errorType = types.Universe.Lookup("error").Type()
 
 func leanType(t types.Type) string {
+	if curGen >= 5 {
+		if s, ok := leanType5(t); ok {
+			return s
+		}
+	}
 	if types.Identical(t, errorType) {
 		return "GoSem.Err"
 	}
@@ -591,6 +612,13 @@ type fnCtx struct {
 	cloDefs   []string
 	cloSSA    string
 
+	// generation 5 (extern.go)
+	objs    map[*ssa.Alloc]*localObj
+	ifaceOf map[ssa.Value]ssa.Value // MakeInterface value -> the converted value (silent conversions)
+	bufName []string                // Lean base names of the local bytes.Buffer contents
+	world   bool                    // the definition takes the oracle record and the world
+	gosem5  bool
+
 	body *strings.Builder
 }
 
@@ -669,7 +697,17 @@ func (c *fnCtx) leanRefOf(tname string) string {
 	if c.gen < 4 {
 		fail("call of %s, a target of ssa2lean4, from a target of an earlier tool", tname)
 	}
-	c.imports["Generated.Ssa4."+ln] = true
+	if c.tr.gen4[tname] {
+		c.imports["Generated.Ssa4."+ln] = true
+		if c.gen == 4 {
+			return ln
+		}
+		return "Low.Gen.Ssa4." + ln
+	}
+	if c.gen < 5 {
+		fail("call of %s, a target of ssa2lean5, from a target of an earlier tool", tname)
+	}
+	c.imports["Generated.Ssa5."+ln] = true
 	return ln
 }
 
@@ -677,6 +715,7 @@ func (c *fnCtx) run() string {
 	f := c.f
 	c.legacy = c.tr.legacy[c.target]
 	c.gen = c.tr.genOf(c.target)
+	curGen, curTr = c.gen, c.tr
 	c.body = &strings.Builder{}
 	c.extField = -1
 	if len(f.Blocks) == 0 {
@@ -716,8 +755,17 @@ func (c *fnCtx) run() string {
 	if c.clo != nil {
 		c.used["self"], c.used["depth"] = true, true
 	}
+	if c.gen >= 5 {
+		c.used["X"], c.used["wd"] = true, true
+		c.setupLocalObjs()
+		c.world = c.tr.usesWorld(f)
+		if c.world {
+			c.paramNames = append(c.paramNames, "X")
+			c.paramDecls = append(c.paramDecls, "{σ : Type} (X : GoSem5.Ext σ)")
+		}
+	}
 	c.scanCells()
-	hasExt := c.scanExt()
+	hasExt := c.gen < 5 && c.scanExt()
 
 	// parameters
 	var ownDecls []string // closure: its own parameters and the state cells (the arguments of `self`)
@@ -735,7 +783,7 @@ func (c *fnCtx) run() string {
 	}
 	nEnv := len(c.paramNames)
 	for k, p := range f.Params {
-		if k == 0 && f.Signature.Recv() != nil {
+		if k == 0 && f.Signature.Recv() != nil && c.gen < 5 {
 			c.setupReceiver(p)
 			continue
 		}
@@ -773,6 +821,10 @@ func (c *fnCtx) run() string {
 			c.paramDecls = append(c.paramDecls, fmt.Sprintf("(%s : %s)", n, leanType(g.Type().Underlying().(*types.Pointer).Elem())))
 		}
 	}
+	if c.world {
+		c.paramNames = append(c.paramNames, "wd")
+		c.paramDecls = append(c.paramDecls, "(wd : σ)")
+	}
 	if hasExt {
 		if c.extField < 0 {
 			fail("interface method call outside the recognised external-writer pattern")
@@ -792,12 +844,19 @@ func (c *fnCtx) run() string {
 	for _, k := range c.stored {
 		parts = append(parts, c.storedType(k))
 	}
-	if len(parts) == 0 {
+	if len(parts) == 0 && !c.world {
 		fail("function without result")
 	}
 	c.resType = strings.Join(parts, " × ")
 	if len(parts) > 1 {
 		c.resType = "(" + c.resType + ")"
+	}
+	if c.world {
+		// (<Go results> × σ): the final world last
+		if len(parts) == 0 {
+			c.resType = "Unit"
+		}
+		c.resType = "(" + c.resType + " × σ)"
 	}
 	if c.option {
 		c.resType = "Option " + paren(c.resType)
@@ -827,6 +886,15 @@ func (c *fnCtx) run() string {
 	if hasExt {
 		cur[extKey] = "(none : GoSem2.ExtCall)"
 	}
+	if c.world {
+		cur[worldKey] = "wd"
+		c.local = append(c.local, worldKey)
+	}
+	for _, o := range c.objs {
+		if o.st == nil {
+			cur[o.bufKey] = "([] : List Nat)" // stands in until the buffer is allocated
+		}
+	}
 	c.emitBlock(f.Blocks[0], 1, cur)
 
 	if c.isClosure {
@@ -844,6 +912,9 @@ func (c *fnCtx) run() string {
 	}
 	if c.gosem3 {
 		out.WriteString("import LowModel.GoSem3\n")
+	}
+	if c.gen >= 5 {
+		out.WriteString("import LowModel.GoSem5\n")
 	}
 	var imps []string
 	for i := range c.imports {
@@ -871,6 +942,11 @@ func (c *fnCtx) run() string {
 	if hasExt {
 		out.WriteString("   The call of WriteAt on the underlying io.WriterAt is EXTERNAL: its results are given by the argument `ans`\n")
 		out.WriteString("   (GoSem2.extWriteAt); the last result component records the (offset, length) handed to it (none = not called).\n")
+	}
+	if c.world {
+		out.WriteString("   Calls that leave the module are EXTERNAL: each is the application of an oracle of `X : GoSem5.Ext σ` to the current\n")
+		out.WriteString("   world and the arguments, and yields the results and the next world; `wd` is the world at entry, the final world is\n")
+		out.WriteString("   returned after the Go results.\n")
 	}
 	if c.fuel {
 		out.WriteString("   The function contains a loop (or calls one that does): `fuel` bounds the number of iterations of every loop\n")
@@ -911,6 +987,12 @@ func (c *fnCtx) storedType(k int) string {
 	if k == extKey {
 		return "GoSem2.ExtCall"
 	}
+	if k == worldKey {
+		return "σ"
+	}
+	if isBufKey(k) {
+		return "List Nat"
+	}
 	if isCellKey(k) {
 		return leanType(c.cellElem(k))
 	}
@@ -920,6 +1002,12 @@ func (c *fnCtx) storedType(k int) string {
 func (c *fnCtx) storedBase(k int) string {
 	if k == extKey {
 		return "ext"
+	}
+	if k == worldKey {
+		return "wd"
+	}
+	if isBufKey(k) {
+		return c.bufName[bufBase-k]
 	}
 	return c.fieldParam[k]
 }
@@ -1030,6 +1118,9 @@ func (c *fnCtx) scanCells() {
 			}
 			if _, isCell := c.cellKeyOf(a); isCell {
 				continue // a variable captured by the function's closure (closure.go)
+			}
+			if c.isLocalObj(a) {
+				continue // a struct / bytes.Buffer the function allocates (extern.go)
 			}
 			var store *ssa.Store
 			var loads []*ssa.UnOp
@@ -1499,6 +1590,12 @@ func (c *fnCtx) emitBlock(b *ssa.BasicBlock, ind int, curIn map[int]string) {
 		if len(parts) > 1 {
 			e = "(" + e + ")"
 		}
+		if c.world {
+			if len(parts) == 0 {
+				e = "()"
+			}
+			e = "(" + e + ", " + cur[worldKey] + ")"
+		}
 		if c.option {
 			c.line(ind, "some %s", e)
 		} else {
@@ -1666,7 +1763,14 @@ func (c *fnCtx) constant(k *ssa.Const) string {
 		if k.Value != nil {
 			fail("non-nil error constant")
 		}
+		if c.gen >= 5 {
+			return "GoSem5.Err.nil"
+		}
 		return "(none : GoSem.Err)"
+	case c.gen >= 5 && isString(t):
+		return stringConst(k)
+	case c.gen >= 5 && moduleIface(t) && k.Value == nil:
+		return "(none : " + leanType(t) + ")"
 	case isSliceType(t) && k.Value == nil && c.gen >= 3:
 		return "([] : " + leanType(t) + ")"
 	case isIntType(t):
@@ -1709,6 +1813,11 @@ func (c *fnCtx) operand(v ssa.Value) string {
 	}
 	if _, isOwned := c.owned[v]; isOwned {
 		return c.readOwned(v)
+	}
+	if a, ok := v.(*ssa.Alloc); ok {
+		if o, ok := c.objs[a]; ok && o.st != nil {
+			return c.snapshot(o, true) // the struct is handed on as a value: no write to it may follow
+		}
 	}
 	if n, ok := c.defined[v]; ok {
 		return n
@@ -1831,6 +1940,9 @@ func onlyFeedsNoop(v ssa.Value) bool {
 }
 
 func (c *fnCtx) emitInstr(in ssa.Instruction, ind int, cur map[int]string) {
+	if c.gen >= 5 && c.emitExt(in, ind, cur) {
+		return
+	}
 	if c.gen >= 3 && c.emitMem(in, ind, cur) {
 		return
 	}
